@@ -266,7 +266,12 @@ fn check(s: &Shared, script: &[Msg], limit: Option<usize>, ended: bool, half_clo
         }
     }
     if let Some(l) = limit {
-        if s.max_running > l {
+        // Running handlers are the in-flight requests of C12 unless the peer re-uses an id it has cancelled while the
+        // first handler's finished response is still queued: that response then answers (and untracks) the second
+        // request, whose own handler is still running although its request no longer counts as in flight. C12 speaks
+        // about in-flight requests, so the count of running handlers is only an oracle without that corner.
+        let id_reused_after_cancel = (0..script.len()).any(|i| matches!(script[i], Msg::Cancel(c) if script[i + 1..].contains(&Msg::Req(c))));
+        if s.max_running > l && (handlers_pending_throughout || !id_reused_after_cancel) {
             errs.push(format!("C12: {} handlers ran concurrently with limit {l}; {desc}", s.max_running));
         }
     }
@@ -303,6 +308,11 @@ fn check(s: &Shared, script: &[Msg], limit: Option<usize>, ended: bool, half_clo
         }
     }
     errs
+}
+
+/// quick tier: the first bound; thorough tier (VERIF_TIER=thorough, set by vx/native_run.py): the second
+fn bound(quick: usize, thorough: usize) -> usize {
+    if std::env::var("VERIF_TIER").as_deref() == Ok("thorough") { thorough } else { quick }
 }
 
 fn scripts(max_len: usize) -> Vec<Vec<Msg>> {
@@ -398,7 +408,8 @@ fn server_wire_scripts() {
     let _g = rt.enter();
     let mut evaluations = 0usize;
     let mut failures: Vec<(String, String)> = vec![];
-    for script in scripts(4) {
+    let max_len = bound(4, 5);
+    for script in scripts(max_len) {
         let n = script.len();
         for polls in 0..(1u32 << n) {
             for release_rev in [false, true] {
@@ -426,6 +437,6 @@ fn server_wire_scripts() {
     for (_, e) in &failures {
         println!("VERIF-FAIL {e}");
     }
-    println!("VERIF-BOUNDED server_wire evaluations={evaluations} bound=peer scripts of <= 4 messages over {{Req 7, Req 8, Cancel 7, Cancel 8}} x a poll or not after each x handler release order x early release x sink gated|not x limit none|1 x half-close|not");
+    println!("VERIF-BOUNDED server_wire evaluations={evaluations} bound=peer scripts of <= {max_len} messages over {{Req 7, Req 8, Cancel 7, Cancel 8}} x a poll or not after each x handler release order x early release x sink gated|not x limit none|1 x half-close|not");
     assert!(failures.is_empty(), "{}", failures[0].1);
 }
